@@ -199,6 +199,9 @@ func (r *Run) run(pd *PropDef) int {
 			if c.LitGen != "" {
 				key = c.LitGen
 			}
+			if c.FuncKey != "" {
+				key = c.FuncKey
+			}
 			fd := r.L.FindFunc(p, key)
 			if fd == nil || fd.Body == nil {
 				r.engineError("contract target %s does not exist in the current tree", unit)
